@@ -5,6 +5,32 @@ Core Lean only.
 import AvoVerif.Lemmas.TagsText
 namespace Avo.Tags
 
+/-! Validity without the non-emptiness clauses (the lemmas below carry
+non-emptiness as separate hypotheses; `Props/C14.lean` derives both from
+`validate`). -/
+def termsValid (tc : Char → Bool) (o : Opt) : Bool := o.all (validTerm tc)
+def optsValid (tc : Char → Bool) (c : Constraint) : Bool := c.all (termsValid tc)
+def setValid (tc : Char → Bool) (cs : Constraints) : Bool := cs.all (optsValid tc)
+
+theorem validOpt_iff (tc : Char → Bool) (o : Opt) :
+    validOpt tc o = true ↔ o ≠ [] ∧ termsValid tc o = true := by
+  simp [validOpt, termsValid]
+
+theorem validConstraint_iff (tc : Char → Bool) (c : Constraint) :
+    validConstraint tc c = true ↔ c ≠ [] ∧ (∀ o ∈ c, o ≠ []) ∧ optsValid tc c = true := by
+  simp only [validConstraint, optsValid, Bool.and_eq_true, Bool.not_eq_true', List.isEmpty_eq_false_iff,
+    List.all_eq_true, validOpt_iff]
+  constructor
+  · intro ⟨h1, h2⟩; exact ⟨h1, fun o ho => (h2 o ho).1, fun o ho => (h2 o ho).2⟩
+  · intro ⟨h1, h2, h3⟩; exact ⟨h1, fun o ho => ⟨h2 o ho, h3 o ho⟩⟩
+
+theorem validate_iff (tc : Char → Bool) (cs : Constraints) :
+    validate tc cs = true ↔ (∀ c ∈ cs, c ≠ []) ∧ (∀ c ∈ cs, ∀ o ∈ c, o ≠ []) ∧ setValid tc cs = true := by
+  simp only [validate, setValid, List.all_eq_true, validConstraint_iff]
+  constructor
+  · intro h; exact ⟨fun c hc => (h c hc).1, fun c hc => (h c hc).2.1, fun c hc => (h c hc).2.2⟩
+  · intro ⟨h1, h2, h3⟩ c hc; exact ⟨h1 c hc, h2 c hc, h3 c hc⟩
+
 theorem name_cases (t : Term) :
     (t = '!' :: name t ∧ isNegated t = true) ∨ (name t = t ∧ isNegated t = false) := by
   unfold name isNegated
@@ -74,9 +100,9 @@ theorem join_ne_nil (sep : Char) (x : Str) (xs : List Str) (h : x ≠ []) : join
   cases xs <;> simp [join, h]
 
 /-- A valid non-empty option prints as a non-empty text without white space. -/
-theorem optText_word {tc : Char → Bool} (hs : SepFree tc) (o : Opt) (hv : validOpt tc o = true) (hne : o ≠ []) :
+theorem optText_word {tc : Char → Bool} (hs : SepFree tc) (o : Opt) (hv : termsValid tc o = true) (hne : o ≠ []) :
     optText o ≠ [] ∧ ∀ c ∈ optText o, isSpace c = false := by
-  have hall : ∀ t ∈ o, validTerm tc t = true := by simpa [validOpt] using hv
+  have hall : ∀ t ∈ o, validTerm tc t = true := by simpa [termsValid] using hv
   cases o with
   | nil => exact absurd rfl hne
   | cons t ts =>
@@ -87,9 +113,9 @@ theorem optText_word {tc : Char → Bool} (hs : SepFree tc) (o : Opt) (hv : vali
       · rw [h]; decide
       · exact (validTerm_sep hs x (hall x hx)).2.2 c hcx
 
-theorem split_optText {tc : Char → Bool} (hs : SepFree tc) (o : Opt) (hv : validOpt tc o = true) (hne : o ≠ []) :
+theorem split_optText {tc : Char → Bool} (hs : SepFree tc) (o : Opt) (hv : termsValid tc o = true) (hne : o ≠ []) :
     split ',' (optText o) = o := by
-  have hall : ∀ t ∈ o, validTerm tc t = true := by simpa [validOpt] using hv
+  have hall : ∀ t ∈ o, validTerm tc t = true := by simpa [termsValid] using hv
   exact split_join ',' o hne (fun x hx => (validTerm_sep hs x (hall x hx)).2.1)
 
 /-- `strings.Fields` of the printed options gives back the option texts. -/
@@ -113,19 +139,20 @@ theorem fields_body (c : Constraint)
       simp only [body, List.cons_append, fieldsGo, hsp, if_true, hne, Bool.false_eq_true, if_false, ih]
 
 /-! roundtrip -/
-theorem parseOption_optText {tc : Char → Bool} (hs : SepFree tc) (o : Opt) (hv : validOpt tc o = true) (hne : o ≠ []) :
+theorem parseOption_optText {tc : Char → Bool} (hs : SepFree tc) (o : Opt) (hv : termsValid tc o = true) (hne : o ≠ []) :
     parseOption tc (optText o) = some o := by
   unfold parseOption
-  simp only [split_optText hs o hv hne, hv, if_true]
+  have hvo : validOpt tc o = true := (validOpt_iff tc o).mpr ⟨hne, hv⟩
+  simp only [split_optText hs o hv hne, hvo, if_true]
 
 theorem parseOptions_map {tc : Char → Bool} (hs : SepFree tc) (c : Constraint)
-    (hv : validConstraint tc c = true) (hne : ∀ o ∈ c, o ≠ []) :
+    (hv : optsValid tc c = true) (hne : ∀ o ∈ c, o ≠ []) :
     parseOptions tc (c.map optText) = some c := by
   induction c with
   | nil => rfl
   | cons o os ih =>
-    have hv' : validOpt tc o = true ∧ validConstraint tc os = true := by
-      simpa [validConstraint] using hv
+    have hv' : termsValid tc o = true ∧ optsValid tc os = true := by
+      simpa [optsValid] using hv
     simp only [List.map_cons, parseOptions,
       parseOption_optText hs o hv'.1 (hne o List.mem_cons_self),
       ih hv'.2 (fun o' ho' => hne o' (List.mem_cons_of_mem _ ho'))]
@@ -206,11 +233,11 @@ theorem any_congr' {α} (l : List α) (f g : α → Bool) (h : ∀ x ∈ l, f x 
     simp only [List.any_cons, h a List.mem_cons_self, ih (fun x hx => h x (List.mem_cons_of_mem _ hx))]
 
 theorem eval_clauseExpr {tc : Char → Bool} (hs : SepFree tc) (v : Str → Bool) (o : Opt)
-    (hv : validOpt tc o = true) (hne : o ≠ []) :
+    (hv : termsValid tc o = true) (hne : o ≠ []) :
     (clauseExpr tc (optText o)).eval v = evalOpt tc v o := by
   unfold clauseExpr
   rw [split_optText hs o hv hne]
-  have hall : ∀ t ∈ o, validTerm tc t = true := by simpa [validOpt] using hv
+  have hall : ∀ t ∈ o, validTerm tc t = true := by simpa [termsValid] using hv
   cases o with
   | nil => exact absurd rfl hne
   | cons t ts =>
@@ -222,13 +249,13 @@ theorem eval_clauseExpr {tc : Char → Bool} (hs : SepFree tc) (v : Str → Bool
     exact eval_litExpr tc v x (hall x (List.mem_cons_of_mem _ hx))
 
 theorem sumOps_eq {tc : Char → Bool} (hs : SepFree tc) (c : Constraint)
-    (hv : validConstraint tc c = true) (hne : ∀ o ∈ c, o ≠ []) :
+    (hv : optsValid tc c = true) (hne : ∀ o ∈ c, o ≠ []) :
     ((c.map optText).map (fun cl => (split ',' cl).length - 1)).sum + c.length = termCount c := by
   induction c with
   | nil => rfl
   | cons o os ih =>
-    have hv' : validOpt tc o = true ∧ validConstraint tc os = true := by
-      simpa [validConstraint] using hv
+    have hv' : termsValid tc o = true ∧ optsValid tc os = true := by
+      simpa [optsValid] using hv
     have ho := hne o List.mem_cons_self
     have ih := ih hv'.2 (fun o' ho' => hne o' (List.mem_cons_of_mem _ ho'))
     have hl : 0 < o.length := List.length_pos_iff.mpr ho
@@ -236,7 +263,7 @@ theorem sumOps_eq {tc : Char → Bool} (hs : SepFree tc) (c : Constraint)
     omega
 
 theorem plusBuildExpr_of_fields {tc : Char → Bool} (hs : SepFree tc) (c : Constraint)
-    (hv : validConstraint tc c = true) (hne : ∀ o ∈ c, o ≠ []) (hsz : termCount c ≤ maxOldSize + 1)
+    (hv : optsValid tc c = true) (hne : ∀ o ∈ c, o ≠ []) (hsz : termCount c ≤ maxOldSize + 1)
     (text : Str) (hf : fields text = c.map optText) :
     plusBuildExpr tc text = some (lineExpr tc c) := by
   unfold plusBuildExpr
@@ -253,10 +280,10 @@ theorem plusBuildExpr_of_fields {tc : Char → Bool} (hs : SepFree tc) (c : Cons
   | cons o os => rfl
 
 theorem eval_lineExpr {tc : Char → Bool} (hs : SepFree tc) (v : Str → Bool) (c : Constraint)
-    (hv : validConstraint tc c = true) (hne : ∀ o ∈ c, o ≠ [])
+    (hv : optsValid tc c = true) (hne : ∀ o ∈ c, o ≠ [])
     (hig : c ≠ [] ∨ v ignoreTag = false) :
     (lineExpr tc c).eval v = evalConstraint tc v c := by
-  have hall : ∀ o ∈ c, validOpt tc o = true := by simpa [validConstraint] using hv
+  have hall : ∀ o ∈ c, termsValid tc o = true := by simpa [optsValid] using hv
   unfold lineExpr evalConstraint
   cases c with
   | nil =>
@@ -351,16 +378,16 @@ theorem mem_body (c : Constraint) (ch : Char) (h : ch ∈ body c) : ch = ' ' ∨
       · exact Or.inr ⟨o', List.mem_cons_of_mem _ ho', h⟩
 
 theorem newline_not_in_body {tc : Char → Bool} (hs : SepFree tc) (c : Constraint)
-    (hv : validConstraint tc c = true) : '\n' ∉ body c := by
+    (hv : optsValid tc c = true) : '\n' ∉ body c := by
   intro h
-  have hall : ∀ o ∈ c, validOpt tc o = true := by simpa [validConstraint] using hv
+  have hall : ∀ o ∈ c, termsValid tc o = true := by simpa [optsValid] using hv
   rcases mem_body c _ h with h | ⟨o, ho, h⟩
   · exact absurd h (by decide)
   · rcases mem_join _ _ _ h with h | ⟨t, ht, h⟩
     · exact absurd h (by decide)
     · have hvt : validTerm tc t = true := by
         have := hall o ho
-        simp only [validOpt, List.all_eq_true] at this
+        simp only [termsValid, List.all_eq_true] at this
         exact this t ht
       have := (validTerm_sep hs t hvt).2.2 _ h
       exact absurd this (by decide)
@@ -401,12 +428,12 @@ theorem parseAll_map (tc : Char → Bool) (cs : Constraints)
 `// +build` complexity limit: nothing for the empty set, otherwise one
 `//go:build` line with the AND of the line expressions. -/
 theorem format_eq {tc : Char → Bool} (hs : SepFree tc) (cs : Constraints)
-    (hv : validate tc cs = true) (hne : ∀ c ∈ cs, ∀ o ∈ c, o ≠ [])
+    (hv : setValid tc cs = true) (hne : ∀ c ∈ cs, ∀ o ∈ c, o ≠ [])
     (hsz : ∀ c ∈ cs, termCount c ≤ maxOldSize + 1) :
     format tc cs = match cs.map (lineExpr tc) with
       | [] => .none
       | e :: es => .goBuild (andAll e es) := by
-  have hall : ∀ c ∈ cs, validConstraint tc c = true := by simpa [validate] using hv
+  have hall : ∀ c ∈ cs, optsValid tc c = true := by simpa [setValid] using hv
   have hnl : ∀ c ∈ cs, '\n' ∉ body c := fun c hc => newline_not_in_body hs c (hall c hc)
   have hnl' : ∀ c ∈ cs, '\n' ∉ lineText c := by
     intro c hc
@@ -418,7 +445,7 @@ theorem format_eq {tc : Char → Bool} (hs : SepFree tc) (cs : Constraints)
   · cases cs.map (lineExpr tc) <;> rfl
   · intro c hc
     have hvc := hall c hc
-    have hallo : ∀ o ∈ c, validOpt tc o = true := by simpa [validConstraint] using hvc
+    have hallo : ∀ o ∈ c, termsValid tc o = true := by simpa [optsValid] using hvc
     apply plusBuildExpr_of_fields hs c hvc (hne c hc) (hsz c hc)
     rw [fields_lineArg]
     exact fields_body c (fun o ho => optText_word hs o (hallo o ho) (hne c hc o ho))
@@ -469,10 +496,10 @@ theorem leaves_clauseExpr (tc : Char → Bool) (s : Str) : (clauseExpr tc s).lea
     omega
 
 theorem leaves_lineExpr {tc : Char → Bool} (hs : SepFree tc) (c : Constraint)
-    (hv : validConstraint tc c = true) (hne : ∀ o ∈ c, o ≠ []) :
+    (hv : optsValid tc c = true) (hne : ∀ o ∈ c, o ≠ []) :
     (lineExpr tc c).leaves = max 1 (termCount c) := by
-  have hall : ∀ o ∈ c, validOpt tc o = true := by simpa [validConstraint] using hv
-  have hsum : ∀ (os : List Opt), (∀ o ∈ os, validOpt tc o = true) → (∀ o ∈ os, o ≠ []) →
+  have hall : ∀ o ∈ c, termsValid tc o = true := by simpa [optsValid] using hv
+  have hsum : ∀ (os : List Opt), (∀ o ∈ os, termsValid tc o = true) → (∀ o ∈ os, o ≠ []) →
       ((os.map (fun o => clauseExpr tc (optText o))).map Expr.leaves).sum = termCount os := by
     intro os
     induction os with
@@ -496,11 +523,11 @@ theorem leaves_lineExpr {tc : Char → Bool} (hs : SepFree tc) (c : Constraint)
     omega
 
 theorem leaves_header {tc : Char → Bool} (hs : SepFree tc) (c : Constraint) (cs : Constraints)
-    (hv : validate tc (c :: cs) = true) (hne : ∀ c' ∈ c :: cs, ∀ o ∈ c', o ≠ []) :
+    (hv : setValid tc (c :: cs) = true) (hne : ∀ c' ∈ c :: cs, ∀ o ∈ c', o ≠ []) :
     (andAll (lineExpr tc c) (cs.map (lineExpr tc))).leaves = sizeBound (c :: cs) := by
-  have hall : ∀ c' ∈ c :: cs, validConstraint tc c' = true := by simpa [validate] using hv
+  have hall : ∀ c' ∈ c :: cs, optsValid tc c' = true := by simpa [setValid] using hv
   rw [leaves_andAll]
-  have : ∀ (l : Constraints), (∀ c' ∈ l, validConstraint tc c' = true) → (∀ c' ∈ l, ∀ o ∈ c', o ≠ []) →
+  have : ∀ (l : Constraints), (∀ c' ∈ l, optsValid tc c' = true) → (∀ c' ∈ l, ∀ o ∈ c', o ≠ []) →
       ((l.map (lineExpr tc)).map Expr.leaves).sum = sizeBound l := by
     intro l
     induction l with
@@ -516,10 +543,10 @@ theorem leaves_header {tc : Char → Bool} (hs : SepFree tc) (c : Constraint) (c
   simpa using h
 
 theorem eval_header {tc : Char → Bool} (hs : SepFree tc) (v : Str → Bool) (c : Constraint) (cs : Constraints)
-    (hv : validate tc (c :: cs) = true) (hne : ∀ c' ∈ c :: cs, ∀ o ∈ c', o ≠ [])
+    (hv : setValid tc (c :: cs) = true) (hne : ∀ c' ∈ c :: cs, ∀ o ∈ c', o ≠ [])
     (hig : (∀ c' ∈ c :: cs, c' ≠ []) ∨ v ignoreTag = false) :
     (andAll (lineExpr tc c) (cs.map (lineExpr tc))).eval v = evaluate tc v (c :: cs) := by
-  have hall : ∀ c' ∈ c :: cs, validConstraint tc c' = true := by simpa [validate] using hv
+  have hall : ∀ c' ∈ c :: cs, optsValid tc c' = true := by simpa [setValid] using hv
   have hl : ∀ c' ∈ c :: cs, (lineExpr tc c').eval v = evalConstraint tc v c' := by
     intro c' hc'
     apply eval_lineExpr hs v c' (hall c' hc') (hne c' hc')
